@@ -708,6 +708,15 @@ package iavl
 //@   ensures [value] err == nil && value != nil ==> cntOf(value) == lookup(old(tview(t.root)), ord(key))
 //@   modifies nodeDB.mtx[*], Statistics.*[*]
 
+// a walk starts with exactly the walked subtree's root pending, whatever the bounds are: which keys are
+// yielded (the inclusive end among them) is decided by the range filter of next(), nowhere else
+//@ func (*Node).newTraversal(node, tree, start, end, ascending, inclusive, post) (t)
+//@   props C08
+//@   inline
+//@   ensures [bounds-and-mode-as-given] t != nil && fresh(t) && t.tree == tree && t.start == start && t.end == end && t.ascending == ascending && t.inclusive == inclusive && t.post == post
+//@   ensures [root-pending] t.delayedNodes != nil && len(*t.delayedNodes) == 1 && (*t.delayedNodes)[0].node == node && (*t.delayedNodes)[0].delayed
+//@   modifies *
+
 // ---------------------------------------------------------------- iterator.go (C08): one step of the range-pruned tree walk (pre-order mode, as used by Iterator)
 //
 // The stack holds subtrees still to be walked, top = next.  A step pops the
